@@ -70,12 +70,17 @@ class Run:
         self.modfile = os.path.join(self.build_dir, "go.mod")
         open(self.modfile, "w").write(mod)
         shutil.copy(os.path.join(VERIF, "go.sum"), os.path.join(self.build_dir, "go.sum"))
-        self.bin = os.path.join(self.build_dir, "p.test")
-        cmd = ["go", "test", "-c", "-tags", "verif", "-modfile", self.modfile, "-o", self.bin, self.spec["pkg"]]
-        p = subprocess.run(cmd, cwd=VERIF, env=goenv(), capture_output=True, text=True)
-        if p.returncode != 0 or not os.path.exists(self.bin):
-            log("BUILD FAILED (inconclusive):\n" + p.stdout[-3000:] + p.stderr[-3000:])
-            return False
+        self.bins = {}
+        pkgs = [self.spec["pkg"]] + [st["pkg"] for st in self.spec["stages"] if st.get("pkg")]
+        for i, pkg in enumerate(dict.fromkeys(pkgs)):
+            b = os.path.join(self.build_dir, "p%d.test" % i)
+            cmd = ["go", "test", "-c", "-tags", "verif", "-modfile", self.modfile, "-o", b, pkg]
+            p = subprocess.run(cmd, cwd=VERIF, env=goenv(), capture_output=True, text=True)
+            if p.returncode != 0 or not os.path.exists(b):
+                log("BUILD FAILED (inconclusive):\n" + p.stdout[-3000:] + p.stderr[-3000:])
+                return False
+            self.bins[pkg] = b
+        self.bin = self.bins[self.spec["pkg"]]
         self.vmerge = os.path.join(VERIF, ".build", "vmerge")
         if not os.path.exists(self.vmerge):
             subprocess.run(["go", "build", "-modfile", self.modfile, "-o", self.vmerge, "./tools/vmerge"], cwd=VERIF, env=goenv())
@@ -106,6 +111,8 @@ class Run:
         os.makedirs(env["VERIF_REPLAY_OUT"], exist_ok=True)
         if extra_env:
             env.update(extra_env)
+        if binary is None and stage.get("pkg"):
+            binary = self.bins[stage["pkg"]]
         args = [binary or self.bin, "-test.run", stage["run"], "-test.v", "-test.count=1"] + extra_args
         out = open(os.path.join(cwd, "out.log"), "w")
         p = subprocess.Popen(args, cwd=cwd, env=env, stdout=out, stderr=subprocess.STDOUT)
@@ -195,6 +202,15 @@ class Run:
             else:
                 self.inconclusive = "stage %s shard %d exited %s without a verdict" % (stage["name"], pr["i"], rc)
         info = dict(stage=stage["name"], kind=kind, shards=n, wall_s=round(time.time() - t0, 1))
+        if kind == "fuzz":
+            for pr in procs:
+                text = open(os.path.join(pr["cwd"], "out.log"), errors="replace").read()
+                ex = re.findall(r"execs: (\d+)", text)
+                ni = re.findall(r"new interesting: (\d+) \(total: (\d+)\)", text)
+                if ex:
+                    info["fuzz_execs"] = int(ex[-1])
+                if ni:
+                    info["fuzz_corpus_entries"] = int(ni[-1][1])
         if kind == "rapid":
             info["requested_cases"] = checks * n
             info["passed_cases"] = passed
@@ -372,6 +388,10 @@ class Run:
             log("cannot tell the test from the file name; expected <TestName>--<slug>.<ext>")
             return 2
         stage = dict(name="replay1", kind="plain", run="^%s$" % test)
+        for pkg, b in self.bins.items():
+            lst = subprocess.run([b, "-test.list", "^%s$" % test], capture_output=True, text=True).stdout
+            if test in lst:
+                stage["pkg"] = pkg
         if path.endswith(".fail"):
             pr = self.launch(stage, 0, 1, ["-rapid.failfile=" + path, "-test.timeout=600s"])
         else:
